@@ -58,4 +58,18 @@ PROPS['C04'] = {
     'design_ref': '§6 C04',
 }
 
+PROPS['C16'] = {
+    'title': 'Sorted-index iteration is complete and ordered',
+    'modules': ['ColumnVerif.Props.C16'],
+    'runs': [{'mode': 'store'}],
+    'trusted_base': STORE_TB + ["tidwall/btree is trusted to realise an ordered set for the comparator the code passes (the comparator itself is modelled)"],
+    'assumptions': [
+        "the index follows its string column under the guard 'no op follows a resizing merge on the same offset in one section' (finding D12)",
+        "store-level composition (mainPass + computedPass inside commit) is exercised by the correspondence, the theorems are per section",
+    ],
+    'level_text': "Lean theorems over the executable sorted-index model: the comparator (key, then offset) is a strict total order; SortInv (entries strictly sorted, one entry per offset, consistent back map) holds for a fresh index and is preserved by every op list, back-fill and history; the entry of an offset is decided by the last Put/Delete addressed to it (overwrite, delete, delete-then-reinsert, equal keys coexist); Ascend visits exactly the selected rows with an entry, each once, keys non-decreasing; with the index in sync with its string column (preserved by every section without resizing merges) that is exactly the selected rows holding a value in non-decreasing order of their current values. Tied to the code by differential histories over a small alphabet with the index created before/after the data and arbitrary filter chains, plus a Go-side sort oracle.",
+    'technique': 'Lean 4 proof (order axioms, invariant by induction over op lists) + model/implementation correspondence',
+    'design_ref': '§6 C16',
+}
+
 ALL_IDS = ['C%02d' % i for i in range(1, 20)]
